@@ -35,10 +35,13 @@ impl Stats {
         *e = (*e).max(v);
     }
     fn violation(&mut self, sig: Value, detail: Value) {
-        if self.violations.len() < 200 {
+        // every instance is counted; two witnesses per signature and shard are written out in full
+        let key = sig.to_string();
+        let n = self.maps.entry("violations_by_signature").or_default().entry(key).or_insert(0);
+        *n += 1;
+        if *n <= 2 {
             self.violations.push((sig, detail));
         }
-        self.count("violations_emitted", 1);
     }
     fn inconc(&mut self, what: &str, detail: Value) {
         if self.inconclusive.len() < 50 {
@@ -140,12 +143,14 @@ pub fn evaluate(plan: &Plan, rec: &RunRecord, st: &mut Stats) {
     let (mut took, mut busy, mut started, mut drained) = (HashMap::new(), HashMap::new(), HashMap::new(), HashMap::new());
     let mut disp: HashMap<u64, (u64, At)> = HashMap::new();
     let mut connect_begin: HashMap<u64, At> = HashMap::new();
+    let mut accepted: HashMap<u64, At> = HashMap::new();
     let (mut w_recv, mut gw_begin, mut w_exit) = (HashMap::new(), HashMap::new(), HashMap::new());
     let mut gw_end: HashMap<u64, (At, bool)> = HashMap::new();
     let (mut enter, mut done, mut written, mut resp): (HashMap<u64, (At, u64)>, HashMap<u64, At>, HashMap<u64, At>, HashMap<u64, At>) = Default::default();
     let mut fired: Vec<&Event> = Vec::new();
     for e in ev {
         match e.kind {
+            "accepted" => drop(accepted.entry(e.who).or_insert(at(e))),
             "acceptor_took_connection" => drop(took.entry(e.who).or_insert(at(e))),
             "dropped_all_workers_busy" => drop(busy.entry(e.who).or_insert(at(e))),
             "dispatched" => drop(disp.entry(e.arg).or_insert((e.who, at(e)))),
@@ -170,7 +175,7 @@ pub fn evaluate(plan: &Plan, rec: &RunRecord, st: &mut Stats) {
     let events_about = |port: Option<u64>, reqs: &[u64]| -> Vec<Value> {
         ev.iter()
             .filter(|e| match e.kind {
-                "acceptor_took_connection" | "dropped_all_workers_busy" => Some(e.who) == port,
+                "accepted" | "acceptor_took_connection" | "dropped_all_workers_busy" => Some(e.who) == port,
                 "dispatched" | "conn_started" | "conn_drained" => Some(e.arg) == port,
                 "h_enter" | "h_done" | "c_written" | "c_resp" => reqs.contains(&e.who),
                 "c_connect_begin" | "c_connected" | "c_connect_failed" | "c_end" | "run_begin" => false,
@@ -250,7 +255,8 @@ pub fn evaluate(plan: &Plan, rec: &RunRecord, st: &mut Stats) {
         // the request this connection was busy with when the acceptor took the command
         let cur = c.reqs.iter().rev().find(|r| before(written.get(&r.id).copied(), s_a));
         let class: &'static str = if !before(port.and_then(|p| took.get(&p)).copied(), s_a) {
-            "not_accepted"
+            // still in the kernel's backlog, or accept()ed by the accept task but not yet taken by the acceptor's loop
+            if before(port.and_then(|p| accepted.get(&p)).copied(), s_a) { "accepted_not_taken" } else { "not_accepted" }
         } else if port.is_some_and(|p| busy.contains_key(&p)) {
             "dropped_all_workers_busy"
         } else if !before(d.map(|d| d.1), s_a) {
@@ -295,6 +301,10 @@ pub fn evaluate(plan: &Plan, rec: &RunRecord, st: &mut Stats) {
             // fully written before the call was issued
             if before(resp.get(&r.id).copied(), s_c) && matches!(outcome, Outcome::Complete) {
                 continue; // answered before the call
+            }
+            if class == "accepted_not_taken" {
+                // observed, not asserted: accept()ed by the server before the command, dropped with the acceptor's JoinSet
+                st.bump("accepted_not_taken_request_outcomes", outcome.name());
             }
             let Some((w, d_at)) = d else { continue };
             if d_at.seq > s_a.seq || port.is_some_and(|p| busy.contains_key(&p)) {
@@ -390,11 +400,17 @@ pub fn evaluate(plan: &Plan, rec: &RunRecord, st: &mut Stats) {
                 with(json!({"conn": idx, "worker": w, "events": events_about(Some(*port), &[]), "full_plan": plan.to_json()})));
         }
     }
+    for (port, a) in &accepted {
+        if a.seq > s_a.seq {
+            st.violation(json!({"rule": "connection_accepted_after_shutdown_command", "mode": plan.mode()}),
+                with(json!({"conn": conn_of.get(port), "events": events_about(Some(*port), &[]), "full_plan": plan.to_json()})));
+        }
+    }
     for c in &plan.conns {
         let port = port_of.get(&c.idx).copied();
         let cb = connect_begin.get(&(c.idx as u64)).copied();
         let after_res = cb.is_some_and(|x| x.seq > s_r.seq);
-        let after_cmd = !before(port.and_then(|p| took.get(&p)).copied(), s_a);
+        let after_cmd = port.is_some_and(|p| p != 0) && !before(port.and_then(|p| took.get(&p)).copied(), s_a);
         if after_res {
             late_checked += 1;
         }
@@ -417,7 +433,7 @@ pub fn evaluate(plan: &Plan, rec: &RunRecord, st: &mut Stats) {
         }
     }
     st.count("rule3_connections_opened_after_resolution", late_checked);
-    st.count("rule3_connections_not_taken_before_command", classes.get("not_accepted").copied().unwrap_or(0));
+    st.count("rule3_connections_not_taken_before_command", classes.get("not_accepted").copied().unwrap_or(0) + classes.get("accepted_not_taken").copied().unwrap_or(0));
 
     // ---- rule 5: Forced does not wait for handlers
     if !graceful {
@@ -430,7 +446,7 @@ pub fn evaluate(plan: &Plan, rec: &RunRecord, st: &mut Stats) {
                 let remaining_ms = r.hk.latency_ms().saturating_sub(s_c.t.saturating_sub(e.t) / 1000);
                 let (class, need, lag_ok) = match r.hk {
                     HK::Long => ("long_async_handler", 2000, rec.lag_ms < 500),
-                    HK::Block(_) => ("blocking_handler", 150, rec.lag_ms < 50),
+                    HK::Block(_) => ("blocking_handler", 150 + delays_any, rec.lag_ms < 50),
                     _ => continue,
                 };
                 if remaining_ms < need {
